@@ -59,6 +59,35 @@ def _ordered_iter(it):
     return False
 
 
+def check_reduced_set(report, sw, ent, rule):
+    """With exclude_non_subsample the training set handed to the wrapped strategy consists of the LABELED
+    samples and the drawn subset: the index array that selects it is assembled from the result of
+    labeled_indices(...) and the subset (concatenate / union / append / sort of those), never as a
+    complement of something in the whole pool (which keeps unlabeled samples that are no candidates)."""
+    idx_names = set()
+    for n in ast.walk(sw.node):
+        if isinstance(n, ast.Assign) and isinstance(n.value, ast.Subscript) and isinstance(n.value.value, ast.Name) \
+                and n.value.value.id in ("X", "y") and isinstance(n.value.slice, ast.Name) \
+                and any(isinstance(t, ast.Name) and t.id.startswith("new_") for t in n.targets):
+            idx_names.add(n.value.slice.id)
+    labeled = {t.id for n in ast.walk(sw.node) if isinstance(n, ast.Assign) and isinstance(n.value, ast.Call)
+               and c01.callname(n.value) == "labeled_indices" for t in n.targets if isinstance(t, ast.Name)}
+    if not idx_names or not labeled:
+        raise AnalysisError("SubSamplingWrapper.query: reduced training set selection vanished")
+    for nm in sorted(idx_names):
+        for n in ast.walk(sw.node):
+            if not (isinstance(n, ast.Assign) and any(isinstance(t, ast.Name) and t.id == nm for t in n.targets)):
+                continue
+            v = n.value
+            complement = any(isinstance(c, ast.Call) and (c01.callname(c) or "").split(".")[-1] in ("setdiff1d", "delete", "arange", "ones", "setxor1d")
+                             for c in ast.walk(v)) or any(isinstance(x, ast.UnaryOp) and isinstance(x.op, ast.Invert) for x in ast.walk(v))
+            built = (names_in(v) & (labeled | {nm})) and not complement
+            report.add(rule, ent, f"reduced training set `{norm_stmt(n, 60)}` = labeled samples + subset", f"{sw.file}:{n.lineno}",
+                       bool(built), detail="assembled from labeled_indices(...) and the subset" if built else
+                       "the selection is built as a complement over the whole pool: unlabeled samples that are not candidates stay "
+                       "in the reduced training set and become candidates of the wrapped strategy")
+
+
 def check_marks_carried(report, sw, ent, rule):
     """A copy of the wrapped strategy's utility rows into the array that is returned is a plain column
     selection `new[:, idx] = inner[:, idx]`: an element-wise filter on the values (boolean mask over
@@ -239,6 +268,7 @@ def run(p, report, tier):
                            "one row of the inner utilities is broadcast to all batch rows: later rows show numbers at "
                            "samples that were already selected")
     check_marks_carried(report, sw, ent, "R20.2")
+    check_reduced_set(report, sw, ent, "R20.2")
     check_subset_population(p, report, "R20.2")
     # ---------------- R20.3
     sa = p.get_class("SingleAnnotatorWrapper")
@@ -313,6 +343,24 @@ def run(p, report, tier):
                f"{sq.file}:{inner_q[0].lineno}", okc, detail=f"candidates={ast.unparse(ck) if ck is not None else None}" if okc else
                "the wrapped strategy always receives the candidate SAMPLES: strategies that treat index candidates "
                "differently rank other samples than they would unwrapped")
+    # the inner picks are located in the SAME index array the inner utilities are gathered with
+    gathers = [n for n in ast.walk(sq.node) if isinstance(n, ast.Assign) and isinstance(n.value, ast.Subscript)
+               and isinstance(n.value.slice, ast.Tuple) and len(n.value.slice.elts) == 2
+               and isinstance(n.value.slice.elts[1], ast.Name) and n.value.slice.elts[1].id in mp_sq]
+    lookups = [c for c in ast.walk(sq.node) if isinstance(c, ast.Call) and c01.callname(c) in ("argwhere", "np.argwhere", "where", "flatnonzero")
+               and c.args and isinstance(c.args[0], ast.Compare) and len(c.args[0].ops) == 1 and isinstance(c.args[0].ops[0], ast.Eq)]
+    for c in lookups:
+        cmp_ = c.args[0]
+        arr = cmp_.left if isinstance(cmp_.left, ast.Name) else (cmp_.comparators[0] if isinstance(cmp_.comparators[0], ast.Name) else None)
+        if arr is None or not gathers:
+            continue
+        gname = gathers[0].value.slice.elts[1].id
+        okl = arr.id == gname
+        report.add("R20.3", sq.qual, f"inner picks located by `{norm_stmt(c, 50)}` in the gathering index array", f"{sq.file}:{c.lineno}", okl,
+                   detail=f"same array `{gname}` gathers the utilities and locates the picks" if okl else
+                   f"the utilities are gathered with `{gname}` but the picks are located in `{arr.id}`: as soon as the two differ "
+                   f"(a candidate without an available annotator) another sample is forced to the top than the one the wrapped "
+                   f"strategy selected")
     rf = RawFlow(sq.node, "A_perf", sink).run()
     if rf.sinks == 0:
         raise AnalysisError("SingleAnnotatorWrapper.query: call of _query_annotators vanished")
